@@ -73,6 +73,7 @@ type c14BeaconWorld struct {
 	beacons []*common.Beacon
 	hash    []byte
 	wedged  bool
+	nops    int
 }
 
 func (b *c14BeaconWorld) close() {
@@ -335,7 +336,7 @@ const c14StreamIdle = 150 * time.Millisecond
 
 // guardedStream runs a server-streaming handler: lets it run for a quiet period, then cancels its context and expects it to
 // return. Outcome: err (returned by itself with an error) | stream:<n> (served n beacons until cancelled) | panic:… | contained | hang.
-func guardedStream(f func(ctx context.Context) error, count func() int) (string, string) {
+func guardedStream(f func(ctx context.Context) error, count func() int, remote bool) (string, string) {
 	ctx, cancel := context.WithCancel(context.Background())
 	defer cancel()
 	ch := make(chan [2]string, 1)
@@ -357,10 +358,20 @@ func guardedStream(f func(ctx context.Context) error, count func() int) (string,
 			ch <- [2]string{"err", err.Error()}
 		}
 	}()
-	select {
-	case r := <-ch:
-		return r[0], r[1]
-	case <-time.After(c14StreamIdle):
+	// quiet period: over the real listener an error only reaches the client with the first Recv, so a stream that
+	// has delivered nothing yet is given longer before it is taken to be "open and waiting"
+	idle := c14StreamIdle
+	waited := time.Duration(0)
+	for {
+		select {
+		case r := <-ch:
+			return r[0], r[1]
+		case <-time.After(idle):
+		}
+		waited += idle
+		if !remote || count() > 0 || waited >= 8*c14StreamIdle {
+			break
+		}
 	}
 	cancel()
 	select {
@@ -432,7 +443,7 @@ func (b *c14BeaconWorld) callSync(layer string, r *drand.SyncRequest) (string, s
 		fs.mu.Lock()
 		defer fs.mu.Unlock()
 		return fs.n
-	})
+	}, layer == "grpc")
 }
 
 func (b *c14BeaconWorld) callPubStream(layer string, r *drand.PublicRandRequest) (string, string) {
@@ -470,7 +481,7 @@ func (b *c14BeaconWorld) callPubStream(layer string, r *drand.PublicRandRequest)
 		fs.mu.Lock()
 		defer fs.mu.Unlock()
 		return fs.n
-	})
+	}, layer == "grpc")
 }
 
 func (b *c14BeaconWorld) callUnary(op, layer string, f []string) (string, string) {
@@ -550,13 +561,16 @@ func (b *c14BeaconWorld) callUnary(op, layer string, f []string) (string, string
 	})
 }
 
-func (b *c14BeaconWorld) probes(layer string) string {
+func (b *c14BeaconWorld) probes(layer string, full bool) string {
 	bpl, hl := "free", "free"
 	if !b.bp.VerifStateLockFree() {
 		bpl = "held"
 	}
 	if b.h != nil && !beacon.VerifHandlerLockFree(b.h) {
 		hl = "held"
+	}
+	if !full && bpl == "free" && hl == "free" {
+		return "bplock=free hlock=free ci=- pb=-"
 	}
 	save := c14Watchdog
 	c14Watchdog = c14ProbeWatchdog
@@ -693,7 +707,8 @@ func beaconOp(w *c14World, f []string) (string, bool) {
 	default:
 		o, d = b.callUnary(f[0], f[1], f[2:])
 	}
-	pr := b.probes(f[1])
+	b.nops++
+	pr := b.probes(f[1], o != "err" || b.nops%c14ProbeEvery == 0)
 	if o == "hang" || strings.Contains(pr, "hang") || strings.Contains(pr, "held") {
 		b.wedged = true
 	}
